@@ -6,6 +6,7 @@ mod props;
 mod report;
 mod rig;
 mod spec;
+mod tr;
 mod util;
 
 use report::{Ctx, Part, Tier};
